@@ -77,25 +77,6 @@ fn c20_policy_admits() {
     kani::cover!(true, "COVER:reach");
 }
 
-/// `mode_exclusion` is total and names the reason the property lists for
-/// "inadmissible-mode assertions ... are listed as excluded".
-#[kani::proof]
-#[kani::unwind(2)]
-fn c20_policy_mode_exclusion() {
-    let p = policy_with(Vec::new());
-    let q = any_mode();
-    let r = p.mode_exclusion(Some(q));
-    let want = match q {
-        AssertionMode::Hypothetical => "hypothetical_not_requested",
-        AssertionMode::Predicted => "prediction_not_requested",
-        _ => "policy_excluded",
-    };
-    assert!(r.as_ptr() == want.as_ptr() && r.len() == want.len(), "OBL:C20.policy.exclusion_reason");
-    let n = p.mode_exclusion(None);
-    assert!(n.len() == "invalid_schema".len() && n.as_ptr() == "invalid_schema".as_ptr(), "OBL:C20.policy.exclusion_reason");
-    kani::cover!(true, "COVER:reach");
-}
-
 pub(super) fn stub_format(_args: core::fmt::Arguments<'_>) -> String {
     String::new()
 }
